@@ -466,6 +466,43 @@ pub fn obs_dataset(store: &AnnotationStore, h: usize) -> Sx {
     .unwrap_or_else(panic_sx)
 }
 
+/// the counting shortcuts of the API, which read the length of an index entry directly:
+/// per resource the annotations_len() of every text selection, per dataset the annotations_count()
+/// of every key and the annotations_len() of every data item (-2 for an empty slot)
+pub fn obs_counts(store: &AnnotationStore) -> Sx {
+    guard(|| {
+        let mut rs = Vec::new();
+        for h in 0..store.resources_len() {
+            match store.resource(TextResourceHandle::new(h)) {
+                None => rs.push(DEAD),
+                Some(res) => rs.push(l((0..res.textselections_len())
+                    .map(|t| match res.textselection_by_handle(TextSelectionHandle::new(t)) {
+                        Ok(ts) => a(ts.annotations_len() as i64),
+                        Err(_) => DEAD,
+                    })
+                    .collect())),
+            }
+        }
+        let mut ds = Vec::new();
+        for h in 0..store.datasets_len() {
+            match store.dataset(AnnotationDataSetHandle::new(h)) {
+                None => ds.push(DEAD),
+                Some(set) => {
+                    let keys = (0..set.as_ref().keys_len())
+                        .map(|k| set.key(DataKeyHandle::new(k)).map(|key| a(key.annotations_count() as i64)).unwrap_or(DEAD))
+                        .collect();
+                    let data = (0..set.as_ref().data_len())
+                        .map(|x| set.annotationdata(AnnotationDataHandle::new(x)).map(|d| a(d.annotations_len() as i64)).unwrap_or(DEAD))
+                        .collect();
+                    ds.push(l(vec![l(keys), l(data)]));
+                }
+            }
+        }
+        l(vec![l(rs), l(ds)])
+    })
+    .unwrap_or_else(panic_sx)
+}
+
 pub fn obs_ids(store: &AnnotationStore) -> Sx {
     guard(|| {
         let one = |o: Option<usize>| -> Sx {
